@@ -1,0 +1,113 @@
+//! Verification harness (feature `verif`): drives the real `BundleFactory` from an op script
+//! (`$VERIF_IN`) and writes one observation line per op to `$VERIF_OUT`.
+use std::{
+    fmt::Write as _,
+    panic::{
+        catch_unwind,
+        AssertUnwindSafe,
+    },
+};
+
+use astria_core::{
+    primitive::v1::{
+        RollupId,
+        ROLLUP_ID_LEN,
+    },
+    protocol::transaction::v1::{
+        action::RollupDataSubmission,
+        Action,
+    },
+};
+
+use super::{
+    encoded_len,
+    with_ibc_prefixed,
+    BundleFactory,
+    BundleFactoryError,
+    SizedBundle,
+};
+
+fn action(id: u64, data_len: usize) -> RollupDataSubmission {
+    let mut rollup_id = [0u8; ROLLUP_ID_LEN];
+    rollup_id[..8].copy_from_slice(&id.to_be_bytes());
+    RollupDataSubmission {
+        rollup_id: RollupId::new(rollup_id),
+        data: vec![0u8; data_len].into(),
+        fee_asset: "nria".parse().unwrap(),
+    }
+}
+
+fn describe(bundle: &SizedBundle) -> String {
+    let mut ids = Vec::new();
+    let mut real = 0u128;
+    for act in &bundle.buffer {
+        let Action::RollupDataSubmission(sub) = act else {
+            ids.push("?".to_string());
+            continue;
+        };
+        let mut id = [0u8; 8];
+        id.copy_from_slice(&sub.rollup_id.as_bytes()[..8]);
+        ids.push(u64::from_be_bytes(id).to_string());
+        real += encoded_len(sub) as u128;
+    }
+    format!(
+        "bundle size={} real={} count={} ids={}",
+        bundle.get_size(),
+        real,
+        bundle.actions_count(),
+        ids.join(",")
+    )
+}
+
+#[test]
+fn drive() {
+    let input = std::fs::read_to_string(std::env::var("VERIF_IN").expect("VERIF_IN")).unwrap();
+    let mut out = String::new();
+    let mut factory: Option<BundleFactory> = None;
+    for line in input.lines() {
+        let toks: Vec<&str> = line.split_whitespace().collect();
+        let Some(&cmd) = toks.first() else { continue };
+        match cmd {
+            "case" => {
+                let max: usize = toks[1].parse().unwrap();
+                let cap: usize = toks[2].parse().unwrap();
+                factory = Some(BundleFactory::new(max, cap));
+                writeln!(out, "case {max} {cap}").unwrap();
+            }
+            "push" => {
+                let id: u64 = toks[1].parse().unwrap();
+                let data_len: usize = toks[2].parse().unwrap();
+                let act = action(id, data_len);
+                let size = encoded_len(&with_ibc_prefixed(act.clone()));
+                let f = factory.as_mut().unwrap();
+                let res = catch_unwind(AssertUnwindSafe(|| f.try_push(act)));
+                let res = match res {
+                    Ok(Ok(())) => "ok",
+                    Ok(Err(BundleFactoryError::SequenceActionTooLarge {
+                        ..
+                    })) => "toolarge",
+                    Ok(Err(BundleFactoryError::FinishedQueueFull(_))) => "full",
+                    Err(_) => "panic",
+                };
+                writeln!(out, "push {id} size={size} res={res} isfull={}", f.is_full()).unwrap();
+            }
+            "popf" => {
+                let f = factory.as_mut().unwrap();
+                match catch_unwind(AssertUnwindSafe(|| f.next_finished().map(|n| n.pop()))) {
+                    Ok(Some(b)) => writeln!(out, "popf {}", describe(&b)).unwrap(),
+                    Ok(None) => writeln!(out, "popf none").unwrap(),
+                    Err(_) => writeln!(out, "popf panic").unwrap(),
+                }
+            }
+            "popn" => {
+                let f = factory.as_mut().unwrap();
+                match catch_unwind(AssertUnwindSafe(|| f.pop_now())) {
+                    Ok(b) => writeln!(out, "popn {}", describe(&b)).unwrap(),
+                    Err(_) => writeln!(out, "popn panic").unwrap(),
+                }
+            }
+            other => panic!("unknown op {other}"),
+        }
+    }
+    std::fs::write(std::env::var("VERIF_OUT").expect("VERIF_OUT"), out).unwrap();
+}
